@@ -427,6 +427,8 @@ class ModelEval(Evaluator):
                     if t is dict:
                         return {key: self.subscript(node, args[0], key) for key in self.iterate(args[0], node)}
                     return t(self.iterate(args[0], node))
+                if t in (float, int) and len(args) == 1 and isinstance(args[0], Model) and getattr(args[0], "symbolic_number", False) and (t is float or getattr(args[0], "integral", False)):
+                    return args[0]           # float(x) of an exact / symbolic number token: the same number
                 try:
                     return t(*args, **kwargs)
                 except (TypeError, ValueError) as e:
